@@ -134,12 +134,12 @@ const (
 
 type qspec struct {
 	name, parent, alloc int64
-	cap, des, guar     rl
+	cap, des, guar      rl
 }
 
 type request struct {
-	kind  int64
-	q     qspec // create / update: the new object; delete: name only; env: name + alloc
+	kind int64
+	q    qspec // create / update: the new object; delete: name only; env: name + alloc
 }
 
 func (q qspec) enc() []int64 {
@@ -224,10 +224,10 @@ type world struct {
 	// recursions over such a lister need not terminate, so nothing more is run (verdict 98)
 	poisoned bool
 	cfg      config
-	indexer cache.Indexer
-	inf     cache.SharedIndexInformer
-	lister  schedulinglister.QueueLister
-	svc     *router.AdmissionService
+	indexer  cache.Indexer
+	inf      cache.SharedIndexInformer
+	lister   schedulinglister.QueueLister
+	svc      *router.AdmissionService
 }
 
 func newWorld(cfg config, q0 []qspec) *world {
